@@ -532,3 +532,10 @@ func resolveRetVal(v ssa.Value, p Path) ssa.Value {
 	}
 	return last
 }
+
+// EvalBool exposes evalBool for rules that fold a boolean along a path
+// under assumptions (Frame.Assume).
+func (f Frame) EvalBool(v ssa.Value, p Path) (isTrue, isFalse, known bool) {
+	t, fs, k := f.evalBool(v, p, 0)
+	return !t.IsEmpty(), !fs.IsEmpty(), k
+}
